@@ -189,7 +189,9 @@ def move_across_break_rule(ctx):
     only when the neighbour on the far side was shown not to lie in a directive."""
     db = ctx.db
     r = ctx.rule("move-across-break", "every MoveAfter() in newlines_chunk_pos() is dominated by the fact that `prev` is not PCF_IN_PREPROC, and "
-                 "the lead-case move additionally by `next2->Is(CT_PREPROC)` false")
+                 "the lead-case move additionally by `next2->Is(CT_PREPROC)` false; the brace hoist of newline_del_between() by "
+                 "start->IsSamePreproc(end); the brace push-down of newline_add_between() and every pair handed to these functions use no "
+                 "navigation that skips preprocessor lines when the partner can be an open brace")
     f = db.fn("newlines_chunk_pos", file="src/newlines/chunk_pos.cpp")
     r.names(f, "pc", "prev", "next")
     mv = [n for n in f.all_nodes() if n["k"] == "call" and n.get("c") == "Chunk::MoveAfter"]
@@ -208,7 +210,68 @@ def move_across_break_rule(ctx):
         if arg == "next":
             r.check(("next2->Is(CT_PREPROC)", False) in flat, "newlines_chunk_pos/MoveAfter(next)/next-line-is-no-directive", db.loc(f, n),
                     "the lead-case move is not guarded by `next2->Is(CT_PREPROC)` false")
-    r.floor(2)
+    # the other two moves of the newline passes carry an open brace over line breaks
+    from ..flow import ReachingDefs, var_id
+
+    def prov(g, rd, i, at, depth=0):
+        n = g.nodes.get(i)
+        while n is not None and n["k"] == "cast":
+            n = g.nodes.get(n["a"][0])
+        if n is None:
+            return set()
+        out = {expr_str(g, n["i"])}
+        if n["k"] == "ref" and n.get("d") in ("lv", "pv") and depth < 6:
+            for info in rd.at(at, var_id(n)):
+                rhs = rd.rhs_of(info)
+                if rhs is not None:
+                    out |= prov(g, rd, rhs, info[1]["i"], depth + 1)
+        if n["k"] == "call" and "o" in n and depth < 6:
+            out |= prov(g, rd, n["o"], at, depth + 1)
+        return out
+    g = db.fn("newline_del_between", file="src/newlines/del_between.cpp")
+    mv = [n for n in g.all_nodes() if n["k"] == "call" and n.get("c") == "Chunk::MoveAfter"]
+    r.require(len(mv) == 1, "newline_del_between: %d MoveAfter calls" % len(mv))
+    cs = [(expr_str(g, cn), pol) for cn, pol in g.guard_conds(g.nblock[mv[0]["i"]]) if cn is not None]
+    r.seen()
+    r.check(("start->IsSamePreproc(end)", True) in cs or ("end->IsSamePreproc(start)", True) in cs, "newline_del_between/MoveAfter(start)/same-directive",
+            db.loc(g, mv[0]), "the open brace is hoisted behind `start` without the test that both lie in the same directive (or both outside): the `{` "
+            "after a macro whose body ends in `if (..)` / `else` / `do` moves into the #define line")
+    g = db.fn("newline_add_between", file="src/newlines/add.cpp")
+    mv = [n for n in g.all_nodes() if n["k"] == "call" and n.get("c") == "Chunk::MoveAfter"]
+    r.require(len(mv) == 1, "newline_add_between: %d MoveAfter calls" % len(mv))
+    rdg = ReachingDefs(g, db)
+    ps = prov(g, rdg, mv[0]["a"][0], mv[0]["i"])
+    r.seen()
+    r.check(not [p for p in ps if "(PREPROC)" in p], "newline_add_between/MoveAfter(%s)/not-over-directive-lines" % expr_str(g, mv[0]["a"][0]), db.loc(g, mv[0]),
+            "the chunk the open brace is pushed behind is found with a navigation that skips whole preprocessor lines (%s): the `{` is "
+            "carried across #if / #define lines" % sorted(p for p in ps if "(PREPROC)" in p))
+    # ... and the pairs handed to these functions: a partner found by skipping preprocessor lines must not be an open brace
+    n_pairs = 0
+    for qn in ("newline_del_between", "newline_iarf_pair", "newline_add_between"):
+        for g2, c in db.callers_of(qn):
+            if len(c.get("a", ())) < 2:
+                continue
+            n_pairs += 1
+            rd2 = ReachingDefs(g2, db)
+            pp = sorted(p for a in c["a"][:2] for p in prov(g2, rd2, a, c["i"]) if "(PREPROC)" in p)
+            if not pp:
+                continue
+            r.seen()
+            end = expr_str(g2, c["a"][1])
+            cs2 = [(expr_str(g2, cn), pol) for cn, pol in g2.guard_conds(g2.nblock[c["i"]]) if cn is not None]
+            first = expr_str(g2, c["a"][0])
+            HOIST = ("CT_PAREN_CLOSE", "CT_SPAREN_CLOSE", "CT_FPAREN_CLOSE", "CT_DO", "CT_ELSE")
+
+            def typed(x):
+                return [m.group(1) for t, pol in cs2 if pol is True for m in [re.match(r"^%s->Is\((CT_\w+)\)$" % re.escape(x), t)] if m]
+            end_not_open = any("BRACE_OPEN" not in t for t in typed(end)) or any(pol is False and t in (end + "->Is(CT_BRACE_OPEN)", end + "->IsBraceOpen()") for t, pol in cs2)
+            start_no_hoist = any(t not in HOIST for t in typed(first))
+            not_open = end_not_open or start_no_hoist
+            r.check(not_open, "%s/%s(%s, %s)/partner-not-over-directive-lines" % (g2.qn.split("::")[-1], qn, expr_str(g2, c["a"][0]), end), db.loc(g2, c),
+                    "the pair is found with %s, which skips whole preprocessor lines, and nothing says that `%s` is not an open brace (or that the first "
+                    "chunk is not `)`/do/else): %s() then hoists the `{` across the directive" % (pp, end, qn))
+    r.require(n_pairs >= 40, "only %d pair call sites found" % n_pairs)
+    r.floor(4)
     return r
 
 
